@@ -240,6 +240,11 @@ def oracle(c):
                 i = levels.index(l)
                 if int(R[i, j]) != 1 or any(int(R[i2, j]) != 0 for i2 in range(n) if i2 not in (i, o)):
                     return f"sum column {l!r} is not the contrast of that level"
+            # full coding: a first column [mean] of ones followed by the reduced columns, labels alike
+            if list(full.labels) != ["mean"] + [str(x) for x in kept]:
+                return f"full sum labels {full.labels}, expected {['mean'] + kept} (omit {levels[o]!r})"
+            if not np.array_equal(Fm, np.column_stack([np.ones(n, dtype=int), R])):
+                return f"full sum coding is not [1 | reduced coding] (n={n}, omit {levels[o]!r})"
         return None
     if c["kind"] == "levels":
         f, fr, extra = _design_case(c)
